@@ -218,12 +218,14 @@ CHECKS.append({
                  "checkers and a certifying successive-shortest-paths reference, evaluated in Lean on every output of "
                  "min_cost_flow / network_simplex / solve_assignment; known findings matched by narrow class predicates",
     "text": "reduced_cost_cert, infeasible_cut_cert, chkMinCost_sound, chkInfeas_sound, certified_verdict_unique, "
-            "assignment_of_flow, assignment_optimal_of_cert, certify_sound, ssp_sound, ssp_sound_transshipment, "
+            "assignment_of_flow, assignment_optimal_of_cert, certify_sound, ssp_sound, ssp_sound_transshipment, ssp_certifies, "
+            "ssp_certifies_transshipment, "
             "pair_costs_faithful_partial / pair_costs_misprice. For every explored instance the optimum or infeasibility is "
             "proved in Lean by an accepted certificate; the solvers' outputs must be feasible, integral, cost = sum cost*flow "
             "= certified optimum, INFEASIBLE iff certified infeasible, agree on common instances, and return.",
-    "note": "[S] ssp_certifies (the SSP model always ends with an accepted certificate) is not proved: a missing certificate "
-            "on an explored input is an infrastructure error, never a verdict. No network_simplex mirror. Known findings "
+    "note": "ssp_certifies / ssp_certifies_transshipment ARE proved (with no negative-cost cycle the certifying SSP reference "
+            "always ends with an accepted certificate, s-t and transshipment forms; Inst.no_negative_cycle_iff_potentials). No "
+            "network_simplex mirror (its tree update has no invariant on the unchanged tree). Known findings "
             "(known_findings.json): min_cost_flow's one-cost-per-node-pair table on instances with anti-parallel or "
             "mixed-cost parallel arcs; network_simplex's basis-tree update (class decided by tracing the tree invariant).",
 })
